@@ -42,6 +42,13 @@ theorem sameCL_mw_notifyRecv (s : Streams) (k : Nat) : SameCL s (s.modStreamW k 
   sameCL_modStreamW s k Stream.notifyRecv (fun st => by
     simp only [Stream.notifyRecv]; cases st.recvTask <;> exact ⟨rfl, rfl⟩)
 
+theorem sameCL_notifyPushIfRecvEnded (s : Streams) (k : Nat) : SameCL s (s.notifyPushIfRecvEnded k) := by
+  unfold Streams.notifyPushIfRecvEnded
+  split
+  · exact sameCL_modStreamW s k Stream.notifyPush (fun st => by
+      simp only [Stream.notifyPush]; cases st.pushTask <;> exact ⟨rfl, rfl⟩)
+  · exact SameCL.refl _
+
 theorem sameCL_panic (s : Streams) (m : String) : SameCL s (s.panic m) := sameCL_of_slab (by rw [panic_store])
 
 theorem sameCL_notifyTask (s : Streams) : SameCL s s.notifyTask := by
@@ -150,7 +157,7 @@ def rdTail (s : Streams) (id : Nat) (payload : Bytes) (eos : Bool) (sz flowLen :
   match eosRes with
   | (s, some e) => (s, .error e)
   | (s, none) =>
-    if !(s.stream id).isRecv then (s.releaseConnectionCapacity sz false, .ok ())
+    if !(s.stream id).isRecv then ((s.releaseConnectionCapacity sz false).notifyPushIfRecvEnded id, .ok ())
     else
       match (s.stream id).recvFlow.sendData sz with
       | (fl, .error (.reason r)) => (s.modStream id fun st => { st with recvFlow := fl }, .error (PErr.libraryGoAway r))
@@ -162,7 +169,7 @@ def rdTail (s : Streams) (id : Nat) (payload : Bytes) (eos : Bool) (sz flowLen :
         if payload.isEmpty && !eos then (s, .ok ())
         else
           let s := s.modStream id fun st => { st with pendingRecv := st.pendingRecv ++ [.data payload (!eos)] }
-          (s.modStreamW id Stream.notifyRecv, .ok ())
+          ((s.modStreamW id Stream.notifyRecv).notifyPushIfRecvEnded id, .ok ())
 
 /-- the flow-controlled length of a DATA frame: payload, padding, pad-length octet -/
 def flowLenOf (payload : Bytes) (padLen : Option Nat) : Nat :=
@@ -216,7 +223,7 @@ theorem rdTail_sameCL (s : Streams) (id : Nat) (payload : Bytes) (eos : Bool) (s
   | none =>
     simp only
     split
-    · exact this.trans (sameCL_releaseConnectionCapacity _ _ _)
+    · exact (this.trans (sameCL_releaseConnectionCapacity _ _ _)).trans (sameCL_notifyPushIfRecvEnded _ _)
     · split
       · exact this.trans (sameCL_modStream _ _ _ (fun _ => ⟨rfl, rfl⟩))
       · exact this.trans (sameCL_panic _ _)
@@ -236,7 +243,8 @@ theorem rdTail_sameCL (s : Streams) (id : Nat) (payload : Bytes) (eos : Bool) (s
         · exact h3
         · refine (h3.trans (sameCL_modStream s3 id
             (fun st => { st with pendingRecv := st.pendingRecv ++ [.data payload (!eos)] }) (fun _ => ⟨rfl, rfl⟩))).trans ?_
-          exact sameCL_mw_notifyRecv _ _
+          refine (sameCL_mw_notifyRecv _ id).trans ?_
+          exact sameCL_notifyPushIfRecvEnded _ _
 
 
 /-- END_STREAM on DATA is only accepted with the content-length used up -/
@@ -281,7 +289,7 @@ theorem rdTail_delivers (s : Streams) (id : Nat) (payload : Bytes) (eos : Bool) 
   | none =>
     simp only
     split
-    · have q : Quiet s (s1.releaseConnectionCapacity sz false) := by quiet
+    · have q : Quiet s ((s1.releaseConnectionCapacity sz false).notifyPushIfRecvEnded id) := by quiet
       exact ⟨q.delivers, fun _ _ => q⟩
     · split
       · have q : Quiet s (s1.modStream id fun st => { st with recvFlow := ‹FlowControl› }) := by quiet
@@ -300,7 +308,8 @@ theorem rdTail_delivers (s : Streams) (id : Nat) (payload : Bytes) (eos : Bool) 
             (s2.releaseCapacity id (usizeAsU32 (flowLen - payload.length)) false).1 else s2) = s3 at h3 ⊢
         split
         · exact ⟨h3.delivers, fun _ he => by cases he⟩
-        · exact ⟨h3.then (Delivers.step (delivers_append _ s3 id _ ⟨rfl, rfl⟩) (quiet_modStreamW _ _ _ keeps_notifyRecv)),
+        · exact ⟨h3.then (Delivers.step (Delivers.step (delivers_append _ s3 id _ ⟨rfl, rfl⟩)
+              (quiet_modStreamW _ _ _ keeps_notifyRecv)) ((Quiet.refl _).notifyPushIfRecvEnded _)),
             fun _ he => by cases he⟩
 
 
